@@ -598,7 +598,7 @@ namespace ss
         else if (!sched.problem.empty())
         {
             auto colon = sched.problem.find(':');
-            auto cls   = colon == std::string::npos ? std::string("problem") : sched.problem.substr(0, colon);
+            auto cls   = colon == std::string::npos ? std::string("mutex_protocol") : sched.problem.substr(0, colon);
             if (cls.find(' ') != std::string::npos)
                 cls = "mutex_protocol";
             bad(cls.c_str(), sched.problem);
